@@ -196,21 +196,6 @@ End Proofs.
    restart passes its spin loop (state Idle), a message is accepted after init, worker 1 takes
    the turn and is inside the handler, restartSubtree then stores Idle, a second message is
    scheduled and worker 2 takes the turn too. *)
-Definition F := fifo2 0.
-Definition cfg_reset (g : bool) := MkCfg 32 g true.
-
-(* threads: 0 producer, 1 producer, 2 worker, 3 worker, 4 restarter *)
-Definition witness_restart : list label :=
-  [ LSpawn KProducer; LSpawn KProducer; LSpawn KWorker; LSpawn KWorker; LSpawn KRestarter;
-    LStep 4;                                   (* spin: state is Idle, leaves the loop *)
-    LStep 4;                                   (* init: the actor is running again *)
-    LSend 0 false; LStep 0; LStep 0; LStep 0; LStep 0;   (* Tell m0: enqueue, Load, CAS, push *)
-    LStep 2; LStep 2; LStep 2; LStep 2;        (* W1: take, TakeForProcessing, sys deq nil, user deq m0 -> handler *)
-    LStep 4;                                   (* restartSubtree: schedState.reset() *)
-    LSend 1 false; LStep 1; LStep 1; LStep 1; LStep 1;   (* Tell m1 *)
-    LStep 3; LStep 3; LStep 3; LStep 3 ].      (* W2: take, TakeForProcessing, sys deq nil, user deq m1 -> handler *)
-
-Definition two_in_handler {A B} (s : state A B) : bool := 2 <=? cnt in_handler (ths s).
 
 Theorem restart_refuted : forall g, exists s,
   reach F F (cfg_reset g) s /\ two_in_handler s = true /\
